@@ -505,7 +505,7 @@ def floor(tier):
         # tolerance; conservation and constant preservation are scale invariant
         {"recipe": dict(F2[1], scale=1e-5), "seed": 112, "updates": [
             U("mortar", 0, 2), U("secondary", 0, 3)]},
-        {"recipe": dict(F2[1], scale=1e-5), "seed": 113, "updates": [
+        {"recipe": dict(F2[1], scale=1e-7), "seed": 113, "updates": [
             U("secondary", 0, 2), U("mortar", 0, 3)]},
         {"recipe": dict(F2[2], scale=1e3), "seed": 114, "updates": [
             U("mortar", 0, 2), U("secondary", 1, 2)]},
